@@ -40,7 +40,8 @@ class MessageContent(Writeable):
                  body: MessageBody) -> None:
         super().__init__()
         self._raw = get_raw(memoryview(data), header._lines, body._lines)
-        self.lines: Final = header.lines + body.lines - 1
+        # an empty part has no line at all, the count is never negative
+        self.lines: Final = max(header.lines + body.lines - 1, 0)
         self.header: Final = header
         self.body: Final = body
 
